@@ -11,9 +11,10 @@ CHECKS = {
         'reference-model monitor: MuJoCo xpos/xquat/mj_objectVelocity vs '
         'kinematics.forward on generated models and states',
         'Every link pose of generated forests (1-6 links, any stack of '
-        'hinge/slide joints, arbitrary frames) is compared with MuJoCo at 8 '
-        'states per model; world velocities are compared on the claimed link '
-        'class and classified (known finding K1) elsewhere.',
+        'hinge/slide joints, arbitrary frames) and of ALL 196 ordered forest '
+        'shapes with 1-6 links is compared with MuJoCo at 10 states per model '
+        '(incl. the default pose at rest); world velocities are compared on '
+        'the claimed link class and classified (known finding K1) elsewhere.',
         'Trusts MuJoCo 3.13 mj_forward / mj_objectVelocity on the same XML.',
         'DESIGN.md §2 C01'),
     'C02': (
@@ -32,7 +33,9 @@ CHECKS = {
         'Gradients through 1-2 (quick) / 1-5 (thorough) steps of the three '
         'pipelines are checked finite at generic and singular states (zero '
         'pose/velocity, axis-aligned rotations, resting contact, float32) and '
-        'equal to finite differences away from switching.',
+        'equal to finite differences away from switching, also at near-zero '
+        'poses and zero velocity (known finding K4: damped gradient within '
+        '4.5e-4 rad of a zero second stack angle).',
         'Finite differences of the real loss are the reference; kinks between '
         'stencil points are detected and counted.',
         'DESIGN.md §2 C03'),
@@ -98,10 +101,12 @@ CHECKS = {
         'trajectory invariants on wrapped rollouts of every registered '
         'environment/backend: sizes, done at reset, determinism, finiteness, '
         'unit quaternions (float32)',
-        'A seed-rotated third (quick) or all (thorough) of the 33 env x '
-        'backend combinations are rolled out under uniform and bang-bang '
-        'actions; every step is checked.',
-        'float32 as shipped; unit quaternion tolerance 1e-4.',
+        'All combinations of the 7 cheap environments plus a seed-rotated '
+        'third of the 4 expensive ones (quick), or all 33 (thorough), are '
+        'rolled out under uniform, i.i.d. bang-bang and held bang-bang '
+        'actions; the reset state and every step are checked.',
+        'float32 as shipped; unit quaternion tolerance 2e-6 (unchanged tree '
+        '<= 2e-7).',
         'DESIGN.md §2 C16'),
     'C09': (
         'algebraic-law monitors on the real functions: exact integer-lattice '
